@@ -86,6 +86,13 @@ Definition sstep (s : sstate) (kind : string) (a : list N) (res : val) (events :
                      ss_pending := ss_pending s; ss_masks := ss_masks s; ss_features := ss_features s |}
       | None => s
       end
+    else if String.eqb kind "set_vring_kick_nofd" then
+      match nth_error rs (N.to_nat (N.land q 255)) with
+      | Some r => {| ss_rings := supd rs (N.to_nat (N.land q 255)) {| sr_started := sr_started r; sr_enabled := sr_enabled r; sr_kick := None;
+                                                                        sr_size := sr_size r; sr_next_avail := sr_next_avail r |};
+                     ss_pending := ss_pending s; ss_masks := ss_masks s; ss_features := ss_features s |}
+      | None => s
+      end
     else if String.eqb kind "get_vring_base" then
       match nth_error rs (N.to_nat q) with
       | Some r => {| ss_rings := supd rs (N.to_nat q) {| sr_started := false; sr_enabled := sr_enabled r; sr_kick := None;
